@@ -16,7 +16,7 @@ import traceback
 from pathlib import Path
 
 from .model import AnalysisError, Program
-from .report import Context, finish
+from .report import AbortRules, Context, finish
 
 ALL = [f"C{n:02d}" for n in range(1, 21)]
 
@@ -34,7 +34,10 @@ def run_property(prop: str, repo: str, tier: str, seed: int, *, write_evidence: 
         if len(program.modules) < 37:
             raise AnalysisError(f"only {len(program.modules)} modules parsed under {program.src}, expected >= 37")
         ctx = Context(program, prop, tier)
-        mod.run(ctx)
+        try:
+            mod.run(ctx)
+        except AbortRules:
+            pass
         extra = None
         if tier == 'thorough':
             extra = {}
